@@ -110,6 +110,7 @@ class World:
         self.tag = None                 # request tag (C12)
         self.hb_ud = None
         self.sim_errors = []
+        self.newpin_behaviour = "accept"   # accept|refuse|swerr|comm|timeout|ack-lost
         self.last_answer = None         # bytes of the last normal answer, None after a fault
         self.extra_handlers = {}        # cmd -> fn(world, data, apdu) for admin-only commands
         self.__dict__.update(kw)
@@ -164,6 +165,9 @@ class Dongle:
                 w.log.append(("fault", f, apdu))
                 raise link_fault(f)
             raise CommException("Invalid status %04x" % e.sw, e.sw)
+        except DeviceTimeout:
+            w.log.append(("timeout", apdu))
+            raise link_fault("timeout")
         except LinkDrop:
             if f in ("read", "timeout"):
                 w.log.append(("fault", f, apdu))
@@ -188,6 +192,10 @@ class Dongle:
 
 class LinkDrop(Exception):
     """The device carried the command out and the link went away (USB re-enumeration)."""
+
+
+class DeviceTimeout(Exception):
+    """The device does not answer in time."""
 
 
 def reset_sessions(w):
@@ -286,6 +294,34 @@ def boot(w, cmd, d, a):
         else:
             w.retries = max(0, w.retries - 1)
         return bytes([0x80, cmd, 1 if ok else 0])
+    if cmd in (0x08, 0xA5):
+        # CHANGE_PIN (Ledger: the new PIN was sent with SEND_PIN, length-prefixed) /
+        # SGX_CHANGE_PASSWORD (PIN in the APDU)
+        if cmd == 0x08:
+            n = w.pinbuf.get(0, 0)
+            new = bytes(w.pinbuf.get(i, 0) for i in range(1, n + 1))
+            w.pinbuf = {}
+        else:
+            new = d[1:]
+        w.log.append(("newpin_rx", new))
+        beh = w.newpin_behaviour
+        if not w.unlocked:
+            raise SW(0x6BF1)
+        if beh == "refuse":
+            if cmd == 0x08:
+                raise SW(0x69A0)
+            return bytes([0x80, cmd, 0])
+        if beh == "swerr":
+            raise SW(0x6A99)
+        if beh == "comm":
+            raise LinkDrop()            # link dies before the device applies the change
+        if beh == "timeout":
+            raise DeviceTimeout()
+        w.pin = new
+        w.log.append(("newpin_applied", new))
+        if beh == "ack-lost":
+            raise LinkDrop()            # device adopted the PIN, acknowledgement never arrives
+        return bytes([0x80, cmd, 1]) if cmd == 0xA5 else bytes([0x80, cmd])
     if cmd == 0xFF or cmd == 0xFA:
         if w.unlocked:
             w.mode = w.post_mode
